@@ -13,6 +13,7 @@ from hypothesis import strategies as st
 import common
 import farm
 import farmcheck
+import zoo
 import p21gen
 import p21render
 import p21parse
@@ -157,7 +158,7 @@ def main(tier, seed):
                          make_strategy=lambda lib: strategy(lib, cfg, probe), case_fn=case,
                          confirm_fn=lambda lib, f, wd: bool(oracle(lib, f["pops"], f["texts"], wd, "confirm")),
                          replay_files=lambda f: dict([("pops.json", json.dumps(f["pops"]))] + [("input_%d.p21" % i, t) for i, t in enumerate(f["texts"])]),
-                         schema_cfg=c01.SCHEMA_CFG)
+                         schema_cfg=c01.SCHEMA_CFG, extra_schemas=[zoo.ZOO])
 
 
 def replay(path):
